@@ -505,6 +505,30 @@ THEOREMS["C05"] = [
     "Pest.C05.stack_ops_never_raise", "Pest.C05.failed_op_is_identity", "Pest.C03.interp_refines_spec",
     "Pest.DStack.abs_apply", "Pest.DStack.inv_apply", "Pest.popAllLoop_rel",
 ]
+THEOREMS["C06"] = ["Pest.C06." + t for t in (
+    "spec_tree_wf spec_parse_tree_wf wf_unfolded wf_ordered wf_flat wf_closure wf_checker_sound allPairs_reading reach_is_syntactic "
+    "spec_names spec_parse_names interp_run_tags spec_root_single tokens_balanced balanced_iff_accepts tokens_sorted flatten_is_preorder "
+    "tokens_length interp_tree_wf interp_same_tree gen_tree_wf gen_same_tree interp_names interp_tags interp_root_single gen_names gen_tags "
+    "gen_root_single").split()]
+THEOREMS["C07"] = ["Pest.C07." + t for t in (
+    "no_stuck parse_no_stuck interp_run_no_exc interp_no_exc gen_run_no_exc gen_no_exc_callable gen_no_exc_closed parse_never_raises "
+    "interp_parse_never_raises modes_agree interp_deterministic gen_deterministic oof_together closed_of_wellFormed parse_terminates "
+    "run_terminates interp_terminates parse_total closed_of_closedB genShape_of_genShapeB skipTotal_of_skipTotalB onlyEOI_of_onlyEOIB").split()]
+THEOREMS["C08"] = ["Pest.C08." + t for t in (
+    "group_id seq_assoc seq_assoc_right seq_assoc_left seq_flatten choice_flatten choice_assoc choice_assoc_right choice_assoc_left dup_choice "
+    "never_seq never_seq_fwd never_seq_bwd never_notpred never_notpred_fwd never_notpred_bwd neverIn_neverAt never_literal extract_silent "
+    "extract_silent_away extract_silent_grammar extract_silent_expr equiv_in_ctx equivE_in_ctx equiv_cong rewrites_preserve_expr "
+    "rewrites_preserve_parse rewrites_preserve_parse_partial equiv_bodies_partial equiv_bodies_preserve_parse interp_obs parse_obs "
+    "rewrites_preserve_interp rewrites_preserve_interp_ok grammar_rewrites_preserve_interp grammar_rewrites_preserve_gen").split()] + [
+    "Pest.L0.Sim.conv", "Pest.L0.cong_grammar", "Pest.L0.Rewrite.sound", "Pest.L0.triviaTotal_of_progress", "Pest.L0.run_mono"]
+THEOREMS["C13"] = ["Pest.C13." + t for t in (
+    "pos_in_range parse_bounded fpos_in_range parse_end_in_range gen_pos_in_range gen_parse_bounded gen_fpos_in_range gen_fpos_agrees "
+    "error_context_defined_on_failure gen_error_context_defined_on_failure error_context_on_failure_is_linecol "
+    "gen_error_context_on_failure_is_linecol mem_knownNames rule_bodies_namesIn names_known parse_known failure_names_known gen_names_known "
+    "gen_parse_known gen_failure_names_known").split()]
+THEOREMS["C16"] = ["Pest.C16." + t for t in (
+    "shift_invariance gen_shift_invariance parse_shift_rel gen_parse_shift_rel parse_shift gen_parse_shift resRel_left_unique "
+    "resRelG_left_unique no_lookbehind gen_no_lookbehind prefix_irrelevant").split()] + ["Pest.soiFreeG_iff"]
 THEOREMS["C05_gen"] = ["Pest.C01.gen_equiv_interp", "Pest.C01.gen_no_exc"]
 
 
